@@ -111,7 +111,10 @@ class FormulaEvaluator(Generic[QuantityT]):
                 f"Some resampled metrics didn't arrive, for formula: {self._name}"
             )
 
-        if self._first_run:
+        # Streams are normally in lock-step after the first synchronization, but they
+        # get out of step when a metric switches to its (lazily started) fallback
+        # stream because the primary stream failed.  Synchronize again in that case.
+        if self._first_run or len({m.result().timestamp for m in ready_metrics}) > 1:  # type: ignore[union-attr]
             metric_ts = await self._synchronize_metric_timestamps(ready_metrics)
         else:
             sample = next(iter(ready_metrics)).result()
